@@ -5,15 +5,20 @@ From XV Require Import Base.Show C16.Model.
 Import ListNotations.
 Local Open Scope Z_scope.
 
-(* concrete state: (loop-carried accumulator, effect log newest first) *)
-Definition cst := (Z * list Z)%type.
-(* the generated loop body: acc' = a*acc + b*x + c ; eff(d*x + e*acc + g) *)
-Definition cbody (a b c d e g : Z) (x : Z) (s : cst) : cst :=
-  let '(acc, log) := s in (a * acc + b * x + c, (d * x + e * acc + g) :: log).
+(* concrete state: (tuple of loop-carried values v0..v(k-1), effect log newest first) *)
+Definition cst := (list Z * list Z)%type.
+(* the generated loop body (harness body_lines): eff(d*x + e*v0 + h*v1 + g); new = a*v0 + b*x + c;
+   the yield is the simultaneous assignment yield_sim sel *)
+Definition mbody (a b c d e g h : Z) (sel : list Z) (x : Z) (s : cst) : cst :=
+  let '(vals, log) := s in
+  let v0 := nth 0 vals 0 in
+  let v1 := nth 1 vals 0 in
+  (yield_sim sel vals (a * v0 + b * x + c), (d * x + e * v0 + h * v1 + g) :: log).
 
 Definition FUEL : nat := 260.
 
-Definition enc_st (s : cst) : sx := L [I 0; I (fst s); sLZ (rev (snd s))].
+(* result 0 is returned, results 1.. are passed to @eff after the loop *)
+Definition enc_st (s : cst) : sx := L [I 0; I (nth 0 (fst s) 0); sLZ (rev (snd s) ++ tl (fst s))].
 Definition enc_ost (o : option cst) : sx := match o with Some s => enc_st s | None => L [I 2] end.
 Definition enc_rres (r : rres cst) : sx :=
   match r with RDone _ s => enc_st s | RFuel _ => L [I 2] | RStuck _ => L [I 9] end.
@@ -30,9 +35,9 @@ Definition enc_block (b : block) : sx :=
 Definition c16_shape_for : sx := L (map enc_block lower_for).
 Definition c16_shape_if (has_else has_results : bool) : sx := L (map enc_block (lower_if has_else has_results)).
 
-Definition c16_run_for (body : Z -> cst -> cst) (lb ub step init : Z) : sx :=
+Definition c16_run_for (body : Z -> cst -> cst) (lb ub step : Z) (init : list Z) : sx :=
   enc_rres (cfg_run cst body (fun s => s) (fun s => s) lb ub step false FUEL lower_for 0%nat 0 (init, [])).
-Definition c16_run_if (bt be : cst -> cst) (cond has_else has_results : bool) (init : Z) : sx :=
+Definition c16_run_if (bt be : cst -> cst) (cond has_else has_results : bool) (init : list Z) : sx :=
   enc_rres (cfg_run cst (fun _ s => s) bt be 0 0 0 cond FUEL (lower_if has_else has_results) 0%nat 0 (init, [])).
 
 (* ---------------------------------------------------------------- range folding *)
@@ -41,7 +46,7 @@ Definition exec_link (l : link) (v : Z) : Z :=
   match l_kind l with FAdd => v + l_c l | FMul => v * l_c l | FOther => v - l_c l end.
 Definition exec_chain (ls : list link) (v : Z) : Z := fold_left (fun a l => exec_link l a) ls v.
 
-Definition c16_fold (body : Z -> cst -> cst) (ls : list link) (lb ub step init : Z) : sx :=
+Definition c16_fold (body : Z -> cst -> cst) (ls : list link) (lb ub step : Z) (init : list Z) : sx :=
   let '((lb', ub', step'), n) := fold_pass ls (lb, ub, step) 0 in
   let rest := skipn n ls in
   L [sN n; sLZ [lb'; ub'; step'];
@@ -50,7 +55,7 @@ Definition c16_fold (body : Z -> cst -> cst) (ls : list link) (lb ub step init :
 (* ---------------------------------------------------------------- flatten *)
 Definition c16_flat (body : Z -> cst -> cst) (perfect iter_ok : bool)
     (o_lb : Z) (o_lb_const : bool) (o_ub : Z) (o_ub_const : bool)
-    (o_step i_lb i_ub i_step : option Z) (u : usekind) (init : Z) : sx :=
+    (o_step i_lb i_ub i_step : option Z) (u : usekind) (init : list Z) : sx :=
   match flatten_model perfect iter_ok o_lb o_lb_const o_ub o_ub_const o_step i_lb i_ub i_step u with
   | FNoFire => L [I 0]
   | FRaise => L [I (-1); I 14]
@@ -60,7 +65,7 @@ Definition c16_flat (body : Z -> cst -> cst) (perfect iter_ok : bool)
   end.
 
 (* ---------------------------------------------------------------- unroll *)
-Definition c16_unroll (fire : bool) (body : Z -> cst -> cst) (runs : list (Z * Z * Z * Z)) : sx :=
+Definition c16_unroll (fire : bool) (body : Z -> cst -> cst) (runs : list (Z * Z * Z * list Z)) : sx :=
   if fire then
     match runs with
     | [] => L []
